@@ -32,6 +32,7 @@ def run(ctx):
 
     ctx.attempt(_snapshot_rule, ctx, "R19.12", scope=lambda ci: ci.module.name.startswith(("EasyFEA.Models", "EasyFEA.Simulations")))
     ctx.attempt(multiplier_column_rule, ctx)
+    ctx.attempt(flow_step_rule, ctx)
     from ..shared import commit_idempotent_rule as _commit_idempotent_rule
 
     ctx.attempt(_commit_idempotent_rule, ctx, "R19.10")
@@ -765,3 +766,117 @@ def committed_state_invariance_rule(ctx):
                         r.fail(f.qualname, f"old-state-rebound:{z.id}", f.file, rebound[0].lineno, f"{(f.cls.name + '.') if f.cls else ''}{f.name}", f"`{z.id}`, the committed state handed to Integrate, is rebound inside the convergence loop (line {rebound[0].lineno}): every iteration integrates from the trial state of the previous one, the history advances inside the iterations and the recorded (stress, state) is not a single integration from the last converged step")
                     else:
                         r.ok(f"{f.qualname}: `{z.id}` is not rebound in the convergence loop")
+
+
+def flow_step_rule(ctx):
+    """R19.18: the structure of the local Newton solver Behavior.__Flow, interpreted with recording stand-ins for the residual,
+    the Jacobian, the freeze of idle points, the projection __Bound, the convergence test and np.linalg.solve, on a
+    material with a yield surface AND a Maxwell branch (2 strain components), for a batch in which no point flows and one in
+    which it does, one Newton iteration each:
+      (a) 'the plastic multiplier increments are non-negative': the iterate handed to the next residual evaluation IS the
+          output of __Bound applied to (u - J^-1 r) -- the projection is the last operation of the update;
+      (b) 'the returned algorithmic tangent is the derivative of the returned stress': C_alg = C - C.dudeps[eps_p]
+          - g C.dudeps[eps_v0] with dudeps = -solve(J, D) of the FINAL Jacobian, also when no point of the batch flows (a
+          viscous branch relaxes on an elastic step: the tangent is not C)."""
+    from types import SimpleNamespace
+
+    from ..alg import Poly, is_zero, Q
+    from ..xeval import Interp, XObj, XRaise, _NpAttr, Opaque
+    from ..xarray import XArray
+    from ..femchain import XFe, fe_hook_full
+
+    repo = ctx.repo
+    beh = repo.cls(BEH)
+    f = beh.methods["__Flow"]
+    r = ctx.rule("R19.18", "__Flow: the Newton update ends with the projection __Bound, and the tangent is C - C.dudeps[eps_p] - sum g_i C.dudeps[eps_v_i] from the final Jacobian whether or not a point of the batch flows", min_instances=2)
+    ns, nz = 2, 4  # two strain components; state = eps_p (2) + eps_v0 (2); unknowns = state + dGamma
+    nu = nz + 1
+    slots = {"eps_p": slice(0, 2), "eps_v0": slice(2, 4)}
+    g = Poly.var("g")
+    for label, fval in (("no point flows", Q(-1)), ("the point flows", Q(1))):
+        r.instance(fn=f.qualname)
+        C = XFe((1, 1, ns, ns), [Poly.var(f"C{i}{j}") for i in range(ns) for j in range(ns)])
+        log = {"residual_u": [], "bound": [], "solve": []}
+        conv = iter([False, True, True])
+
+        def residual(eps, u, zOld, C_, dt, log=log, fval=fval):
+            log["residual_u"].append(u)
+            rr = XFe((1, 1, nu), [Poly.var(f"r{k}_{len(log['residual_u'])}") for k in range(nz)] + [fval])
+            return rr, XFe((1, 1, ns), [Poly.var("s0"), Poly.var("s1")]), Opaque("N"), Opaque("dNdSig")
+
+        def jacobian(u, zOld, N, dN, C_, dt, log=log):
+            k = len(log["solve"])
+            return (XFe((1, 1, nu, nu), [Poly.var(f"J{k}_{a}{b}") for a in range(nu) for b in range(nu)]), XFe((1, 1, nu, ns), [Poly.var(f"D{k}_{a}{b}") for a in range(nu) for b in range(ns)]))
+
+        def bound(u, log=log):
+            out = XFe((1, 1, nu), [Poly.var(f"B{k}") for k in range(nu)])
+            log["bound"].append((u, out))
+            return out
+
+        class Conv:
+            _xeval_open = True
+
+            def __init__(self, v):
+                self.v = v
+
+            def all(self):
+                return self.v
+
+        attrs = {beh.mangle("__layout"): SimpleNamespace(n=nz, slots=slots), beh.mangle("__yield"): Opaque("yield"), beh.mangle("__rate"): None,
+                 beh.mangle("__branches"): [SimpleNamespace(g=g)], "_maxIter": 3,
+                 beh.mangle("__Residual"): residual, beh.mangle("__Jacobian"): jacobian, beh.mangle("__Freeze"): lambda *a, **k: None,
+                 beh.mangle("__Bound"): bound, beh.mangle("__Converged"): lambda r_, act: Conv(next(conv))}
+        obj = XObj(beh, attrs)
+
+        def hook(fn, args, kwargs, log=log):
+            if isinstance(fn, _NpAttr) and fn.path == "linalg.solve":
+                B = XArray.from_nested(args[1])
+                k = len(log["solve"])
+                out = XFe(B.shape, [Poly.var(f"X{k}_{i}") for i in range(B.size)])
+                log["solve"].append((args[0], args[1], out))
+                return out
+            return fe_hook_full(fn, args, kwargs)
+
+        I = Interp(repo)
+        I.call_hook = hook
+        eps = XFe((1, 1, 6), [Poly.var(f"e{k}") for k in range(6)])
+        zOld = XFe((1, 1, nz), [Poly.var(f"z{k}") for k in range(nz)])
+        try:
+            sig, C_alg, z, converged = I.call_function(f, [eps, zOld, C, Q(1, 10)], self_obj=obj)
+        except XRaise as e:
+            r.fail(f.qualname, f"flow:{label}", f.file, f.lineno, "Behavior.__Flow", f"{label}: raises {e}")
+            continue
+        bad = None
+        # (a) projection last
+        if not log["bound"]:
+            bad = "the Newton update is never passed through __Bound"
+        else:
+            arg, outB = log["bound"][0]
+            nxt = log["residual_u"][-1] if len(log["residual_u"]) > 1 else None
+            step = log["solve"][0][2] if log["solve"] else None
+            if nxt is None or list(XArray.from_nested(nxt).data) != list(outB.data):
+                bad = "the iterate handed to the next residual evaluation is not the output of __Bound (the projection dGamma >= 0 is not the last operation of the update: Newton can converge onto a negative plastic multiplier)"
+            elif step is not None and not any("X0_" in str(x) for x in XArray.from_nested(arg).data):
+                bad = "__Bound is applied to the previous iterate, not to the Newton update u - J^-1 r (a no-op on an admissible iterate)"
+        # (b) tangent
+        if bad is None:
+            if not log["solve"]:
+                bad = "no linear solve for the tangent"
+            else:
+                J_last, D_last, X = log["solve"][-1]
+                if XArray.from_nested(D_last).shape != (1, 1, nu, ns):
+                    bad = "no tangent solve follows the Newton loop (dudeps = -solve(J, D) of the final Jacobian is skipped): the returned tangent is not the derivative of the returned stress" + (" -- a Maxwell branch relaxes during an elastic step, d sigma / d eps is not C" if label == "no point flows" else "")
+                else:
+                    dudeps = [[-X[0, 0, a, b] for b in range(ns)] for a in range(nu)]
+                    Ca = XArray.from_nested(C_alg)
+                    for i in range(ns):
+                        for j in range(ns):
+                            want = C[0, 0, i, j]
+                            for k in range(ns):
+                                want = want - C[0, 0, i, k] * dudeps[slots["eps_p"].start + k][j] - g * C[0, 0, i, k] * dudeps[slots["eps_v0"].start + k][j]
+                            if bad is None and not is_zero(Poly.of(Ca[0, 0, i, j]) - Poly.of(want)):
+                                bad = f"C_alg[{i}][{j}] = {Ca[0, 0, i, j]!r} is not C - C.dudeps[eps_p] - g C.dudeps[eps_v0] = {want!r}" + (" (the elastic stiffness is returned although the Maxwell branch relaxes during the step: the tangent is not the derivative of the returned stress)" if label == "no point flows" else "")
+        if bad:
+            r.fail(f.qualname, f"flow:{label}", f.file, f.lineno, "Behavior.__Flow", f"yield surface + one Maxwell branch, {label}: {bad}")
+        else:
+            r.ok(f"{label}: update == __Bound(u - J^-1 r); tangent from the final (J, D)")
